@@ -56,6 +56,9 @@ void Curve::append_cubic(const Vec2 p0, const Vec2 p1, const Vec2 p2, const Vec2
                 const double c = 1 - curvature * tolerance;
                 double angle = c < -1 ? 2 * M_PI : 2 * acos(c);
                 dt = angle / (curvature * len_dc);
+                // The estimate collapses next to (nearly) coincident control points; the
+                // refinement below still enforces the tolerance
+                if (dt < 1e-3 / GDSTK_MIN_POINTS) dt = 1e-3 / GDSTK_MIN_POINTS;
             }
         }
         if (t + dt > 1) dt = 1 - t;
@@ -109,6 +112,9 @@ void Curve::append_quad(const Vec2 p0, const Vec2 p1, const Vec2 p2) {
                 const double c = 1 - curvature * tolerance;
                 double angle = c < -1 ? 2 * M_PI : 2 * acos(c);
                 dt = angle / (curvature * len_dc);
+                // The estimate collapses next to (nearly) coincident control points; the
+                // refinement below still enforces the tolerance
+                if (dt < 1e-3 / GDSTK_MIN_POINTS) dt = 1e-3 / GDSTK_MIN_POINTS;
             }
         }
         if (t + dt > 1) dt = 1 - t;
@@ -176,6 +182,9 @@ void Curve::append_bezier(const Array<Vec2> ctrl) {
                 const double c = 1 - curvature * tolerance;
                 double angle = c < -1 ? 2 * M_PI : 2 * acos(c);
                 dt = angle / (curvature * len_dc);
+                // The estimate collapses next to (nearly) coincident control points; the
+                // refinement below still enforces the tolerance
+                if (dt < 1e-3 / GDSTK_MIN_POINTS) dt = 1e-3 / GDSTK_MIN_POINTS;
             }
         }
         if (t + dt > 1) dt = 1 - t;
